@@ -1500,3 +1500,472 @@ Proof.
   intros H Hs Hs'. destruct (add_path_reuses _ _ _ _ _ _ _ H) as [Hr _].
   destruct (Hr q s Hs) as (s1 & Hs1 & _ & _ & He). rewrite Hs' in Hs1. inversion Hs1; subst. exact He.
 Qed.
+
+(* ======================================================================================== *)
+(* 16. duplicate names disallowed: an accepted call does what the permissive call does         *)
+
+Definition find_all_kids (nm : str) :=
+  fix go (i : nat) (l : list tree) : list pos :=
+    match l with
+    | [] => []
+    | k :: r => map (cons i) (find_all nm k) ++ go (S i) r
+    end.
+
+Lemma find_all_unfold nm g n a ks :
+  find_all nm (T g n a ks) = (if str_eqb n nm then [[]] else []) ++ find_all_kids nm 0 ks.
+Proof. reflexivity. Qed.
+
+Lemma find_all_kids_cons nm i k r :
+  find_all_kids nm i (k :: r) = map (cons i) (find_all nm k) ++ find_all_kids nm (S i) r.
+Proof. reflexivity. Qed.
+
+Lemma find_all_sound nm : forall t q,
+  In q (find_all nm t) -> exists s, subtree_at t q = Some s /\ tname s = nm.
+Proof.
+  induction t as [g n a ks IH] using tree_ind'. intros q H. rewrite find_all_unfold in H.
+  apply in_app_or in H as [H|H].
+  - destruct (str_eqb n nm) eqn:E; [|contradiction]. destruct H as [<-|[]].
+    eexists. split; [reflexivity|]. now apply str_eqb_eq.
+  - assert (G : forall i l, Forall (fun k => forall q, In q (find_all nm k) ->
+                   exists s, subtree_at k q = Some s /\ tname s = nm) l ->
+                 In q (find_all_kids nm i l) ->
+                 exists j k q', q = (i + j) :: q' /\ nth_error l j = Some k /\
+                                exists s, subtree_at k q' = Some s /\ tname s = nm).
+    { intros i l. revert i. induction l as [|k l IHl]; intros i Hf Hin; [contradiction|].
+      inversion Hf as [|? ? Hk Hl]; subst. rewrite find_all_kids_cons in Hin.
+      apply in_app_or in Hin as [Hin|Hin].
+      - apply in_map_iff in Hin as (q' & <- & Hq'). exists 0, k, q'. rewrite Nat.add_0_r.
+        split; [reflexivity|]. split; [reflexivity|]. now apply Hk.
+      - destruct (IHl (S i) Hl Hin) as (j & k' & q' & -> & Hj & Hs).
+        exists (S j), k', q'. split; [f_equal; lia|]. split; [exact Hj|exact Hs]. }
+    destruct (G 0 ks IH H) as (j & k & q' & -> & Hj & s & Hs & Hn).
+    exists s. cbn [Nat.add subtree_at tkids]. rewrite Hj. auto.
+Qed.
+
+Lemma find_all_complete nm : forall t q s,
+  subtree_at t q = Some s -> tname s = nm -> In q (find_all nm t).
+Proof.
+  induction t as [g n a ks IH] using tree_ind'. intros q s H Hn. rewrite find_all_unfold.
+  apply in_or_app. destruct q as [|j q].
+  - left. cbn in H. inversion H; subst s. cbn in Hn. subst. rewrite str_eqb_refl. now left.
+  - right. cbn [subtree_at tkids] in H. destruct (nth_error ks j) as [k|] eqn:Hj; [|discriminate].
+    assert (G : forall l i j0, Forall (fun k => forall q s, subtree_at k q = Some s -> tname s = nm ->
+                   In q (find_all nm k)) l ->
+                 nth_error l j0 = Some k -> In ((i + j0) :: q) (find_all_kids nm i l)).
+    { induction l as [|x l IHl]; intros i j0 Hf Hj0; [destruct j0; discriminate|].
+      inversion Hf as [|? ? Hx Hl]; subst. rewrite find_all_kids_cons. apply in_or_app.
+      destruct j0 as [|j0]; cbn in Hj0.
+      - inversion Hj0; subst x. left. rewrite Nat.add_0_r. apply in_map. eapply Hx; eauto.
+      - right. replace (i + S j0) with (S i + j0) by lia. now apply IHl. }
+    apply (G ks 0 j IH Hj).
+Qed.
+
+Lemma subtree_names_incl : forall q t s, subtree_at t q = Some s -> incl (names s) (names t).
+Proof.
+  induction q as [|i q IH]; intros t s H; cbn in H.
+  - inversion H; subst. apply incl_refl.
+  - destruct t as [g n a ks]. cbn [tkids] in H.
+    destruct (nth_error ks i) as [k|] eqn:Hk; [|discriminate].
+    intros x Hx. rewrite names_unfold. right. apply in_flat_map. exists k.
+    split; [eapply nth_error_In; eauto|]. eapply IH; eauto.
+Qed.
+
+Lemma tname_in_names t : In (tname t) (names t).
+Proof. destruct t. rewrite names_unfold. now left. Qed.
+
+Lemma names_along_in : forall q t s x,
+  subtree_at t q = Some s -> In x (names_along t q) -> In x (names t).
+Proof.
+  induction q as [|i q IH]; intros t s x H Hx.
+  - cbn in Hx. destruct Hx as [<-|[]]. apply tname_in_names.
+  - destruct t as [g n a ks]. cbn [subtree_at names_along tkids tname] in *.
+    destruct (nth_error ks i) as [k|] eqn:Hk; [|discriminate].
+    rewrite names_unfold. destruct Hx as [<-|Hx]; [now left|]. right.
+    apply in_flat_map. exists k. split; [eapply nth_error_In; eauto|]. eapply IH; eauto.
+Qed.
+
+Lemma NoDup_app_disjoint {A} (l l' : list A) x : NoDup (l ++ l') -> In x l -> In x l' -> False.
+Proof.
+  induction l as [|y l IH]; intros Hn Hl Hl'; [contradiction|]. cbn in Hn.
+  inversion Hn as [|? ? Hy Hr]; subst. destruct Hl as [->|Hl].
+  - apply Hy. apply in_or_app. now right.
+  - now apply IH.
+Qed.
+
+Lemma NoDup_app_inv {A} (l l' : list A) : NoDup (l ++ l') -> NoDup l /\ NoDup l'.
+Proof.
+  induction l as [|x l IH]; intros H; [split; [constructor|exact H]|].
+  cbn in H. inversion H as [|? ? Hx Hr]; subst. destruct (IH Hr) as [H1 H2]. split; [|exact H2].
+  constructor; [|exact H1]. intros Hin. apply Hx. apply in_or_app. now left.
+Qed.
+
+Lemma sib_ok_subtree : forall q t s, sib_ok t -> subtree_at t q = Some s -> sib_ok s.
+Proof.
+  induction q as [|i q IH]; intros t s Hw H; cbn in H.
+  - inversion H; subst. exact Hw.
+  - destruct (nth_error (tkids t) i) as [k|] eqn:Hk; [|discriminate].
+    apply sib_ok_kids in Hw as [_ Hf]. rewrite Forall_forall in Hf.
+    eapply IH; [|exact H]. apply Hf. eapply nth_error_In; eauto.
+Qed.
+
+Lemma NoDup_names_sib_ok : forall t, NoDup (names t) -> sib_ok t.
+Proof.
+  induction t as [g n a ks IH] using tree_ind'. intros Hn. rewrite names_unfold in Hn.
+  inversion Hn as [|? ? _ Hf]; subst. clear Hn.
+  assert (G : NoDup (map tname ks) /\ Forall sib_ok ks).
+  { induction ks as [|k ks IHk]; [split; constructor|].
+    inversion IH as [|? ? Hk Hks]; subst. cbn [flat_map] in Hf.
+    destruct (NoDup_app_inv _ _ Hf) as [Hfk Hfr].
+    destruct (IHk Hks Hfr) as [H1 H2]. split.
+    - cbn. constructor; [|exact H1]. intros Hin. apply in_map_iff in Hin as (k' & E & Hk').
+      apply (NoDup_app_disjoint _ _ (tname k) Hf); [apply tname_in_names|].
+      apply in_flat_map. exists k'. split; [exact Hk'|]. rewrite <- E. apply tname_in_names.
+    - constructor; [|exact H2]. apply Hk. exact Hfk. }
+  destruct G. now constructor.
+Qed.
+
+(* joining with a single character that occurs in no component is injective *)
+Lemma split_at_sep (c : N) : forall x x' r r',
+  ~ In c x -> ~ In c x' -> x ++ c :: r = x' ++ c :: r' -> x = x' /\ r = r'.
+Proof.
+  induction x as [|a x IH]; intros [|a' x'] r r' H H' E; cbn in E.
+  - inversion E. auto.
+  - inversion E; subst. exfalso. apply H'. now left.
+  - inversion E; subst. exfalso. apply H. now left.
+  - inversion E; subst. destruct (IH x' r r') as [-> ->]; auto.
+    + intros Hin. apply H. now right.
+    + intros Hin. apply H'. now right.
+Qed.
+
+Lemma join_inj (c : N) : forall l1 l2 : list str,
+  l1 <> [] -> l2 <> [] ->
+  (forall x, In x l1 -> ~ In c x) -> (forall x, In x l2 -> ~ In c x) ->
+  join [c] l1 = join [c] l2 -> l1 = l2.
+Proof.
+  induction l1 as [|x l1 IH]; intros [|y l2] H1 H2 C1 C2 E; try congruence.
+  destruct l1 as [|x2 l1], l2 as [|y2 l2].
+  - cbn in E. now subst.
+  - rewrite join_single, join_cons in E. exfalso. apply (C1 x (or_introl eq_refl)).
+    rewrite E. apply in_or_app. right. now left.
+  - rewrite join_single, join_cons in E. exfalso. apply (C2 y (or_introl eq_refl)).
+    rewrite <- E. apply in_or_app. right. now left.
+  - rewrite !join_cons in E. cbn [app] in E.
+    apply split_at_sep in E as [-> E]; [|apply C1; now left|apply C2; now left].
+    f_equal. apply IH; try discriminate; [| |exact E].
+    + intros z Hz. apply C1. now right.
+    + intros z Hz. apply C2. now right.
+Qed.
+
+Lemma names_along_hd t q : exists l, names_along t q = tname t :: l.
+Proof. destruct q; cbn; eauto. Qed.
+
+Lemma names_along_child : forall parent t pt i k,
+  subtree_at t parent = Some pt -> nth_error (tkids pt) i = Some k ->
+  names_along t (parent ++ [i]) = names_along t parent ++ [tname k].
+Proof.
+  induction parent as [|j parent IH]; intros t pt i k H Hk; cbn in H.
+  - inversion H; subst pt. cbn. now rewrite Hk.
+  - cbn [app names_along]. destruct (nth_error (tkids t) j) as [kj|] eqn:Hj; [|discriminate].
+    cbn [app]. f_equal. eapply IH; eauto.
+Qed.
+
+Lemma names_along_add_kid c : forall parent t pt,
+  subtree_at t parent = Some pt ->
+  names_along (upd_at parent (add_kid c) t) (parent ++ [length (tkids pt)])
+  = names_along t parent ++ [tname c].
+Proof.
+  induction parent as [|j parent IH]; intros t pt H; cbn in H.
+  - inversion H; subst pt. destruct t as [g n a ks]. cbn.
+    rewrite nth_error_app2, Nat.sub_diag by lia. reflexivity.
+  - destruct t as [g n a ks]. cbn [tkids] in H. rewrite upd_at_cons.
+    cbn [app names_along tname tkids]. rewrite nth_error_upd_nth.
+    destruct (nth_error ks j) as [kj|] eqn:Hj; [|discriminate]. cbn [option_map app].
+    f_equal. now apply IH.
+Qed.
+
+(* a valid position whose name path extends the parent's by one name is a child of the parent *)
+Lemma names_along_extends : forall parent t pt q s x,
+  sib_ok t -> subtree_at t parent = Some pt -> subtree_at t q = Some s ->
+  names_along t q = names_along t parent ++ [x] ->
+  exists i k, q = parent ++ [i] /\ nth_error (tkids pt) i = Some k /\ tname k = x.
+Proof.
+  induction parent as [|j parent IH]; intros t pt q s x Hw Hp Hq E; cbn in Hp.
+  - inversion Hp; subst pt. destruct q as [|i q]; [cbn in E; discriminate|].
+    cbn [subtree_at names_along app] in *. destruct (nth_error (tkids t) i) as [k|] eqn:Hk; [|discriminate].
+    inversion E as [E1]. destruct q as [|i' q].
+    + cbn in E1. inversion E1. exists i, k. auto.
+    + cbn [subtree_at names_along] in *. destruct (nth_error (tkids k) i'); [|discriminate].
+      destruct (names_along_hd t0 q) as [l El]. rewrite El in E1. discriminate.
+  - destruct t as [g n a ks]. cbn [tkids] in Hp.
+    destruct (nth_error ks j) as [kj|] eqn:Hj; [|discriminate].
+    cbn [names_along tname tkids] in E. rewrite Hj in E.
+    destruct q as [|i q].
+    + cbn in E. inversion E as [E1]. destruct (names_along_hd kj parent) as [l El].
+      rewrite El in E1. discriminate.
+    + cbn [subtree_at names_along tname tkids app] in *.
+      destruct (nth_error ks i) as [ki|] eqn:Hi; [|discriminate].
+      inversion E as [E1].
+      apply sib_ok_kids in Hw as [Hnd Hwk]. cbn [tkids] in *.
+      assert (i = j).
+      { destruct (names_along_hd ki q) as [l1 E2]. destruct (names_along_hd kj parent) as [l2 E3].
+        rewrite E2, E3 in E1. cbn in E1. inversion E1 as [Hname].
+        eapply (proj1 (NoDup_nth_error (map tname ks))); [exact Hnd| |].
+        - rewrite map_length. apply nth_error_Some. congruence.
+        - rewrite !nth_error_map, Hi, Hj. cbn. now f_equal. }
+      subst i. rewrite Hj in Hi. inversion Hi; subst ki.
+      rewrite Forall_forall in Hwk.
+      destruct (IH kj pt q s x (Hwk kj (nth_error_In _ _ Hj)) Hp Hq E1) as (i & k & -> & Hk & Hn).
+      exists i, k. auto.
+Qed.
+
+Definition clean (c : N) (t : tree) : Prop := forall x, In x (names t) -> ~ In c x.
+
+Lemma grow_step_false_true c t parent pt done nm last na t' p :
+  NoDup (names t) -> clean c t -> ~ In c nm ->
+  subtree_at t parent = Some pt -> names_along t parent = done ->
+  grow_step [c] false t parent (done ++ [nm]) nm last na = Ret (t', p) ->
+  grow_step [c] true t parent (done ++ [nm]) nm last na = Ret (t', p)
+  /\ (exists pt', subtree_at t' p = Some pt') /\ names_along t' p = done ++ [nm] /\ clean c t'.
+Proof.
+  intros Hn Hc Hnm Hp Hd. pose proof (NoDup_names_sib_ok t Hn) as Hw.
+  unfold grow_step. rewrite Hp.
+  destruct (find_all nm t) as [|q [|q' r]] eqn:F; [| |discriminate].
+  - (* no node of that name anywhere: both create it *)
+    assert (Fi : find_idx nm 0 (tkids pt) = []).
+    { destruct (find_idx nm 0 (tkids pt)) as [|i l] eqn:Fi; [reflexivity|]. exfalso.
+      assert (Hi : In i (find_idx nm 0 (tkids pt))) by (rewrite Fi; now left).
+      apply find_idx_spec in Hi as [_ (k & Hk & Hname)]. rewrite Nat.sub_0_r in Hk.
+      apply (find_all_nil nm t F).
+      apply (subtree_names_incl parent t pt Hp). destruct pt as [g n a ks]. rewrite names_unfold.
+      right. apply in_flat_map. exists k. split; [eapply nth_error_In; eauto|].
+      rewrite <- Hname. apply tname_in_names. }
+    rewrite Fi. destruct (is_nil nm); [discriminate|]. intros H. inversion H; subst. clear H.
+    split; [reflexivity|]. split; [|split].
+    + rewrite subtree_at_app, (subtree_upd_at _ _ _ _ Hp). destruct pt as [g n a ks]. cbn.
+      rewrite nth_error_app2, Nat.sub_diag by lia. cbn. eauto.
+    + now rewrite (names_along_add_kid _ _ _ _ Hp).
+    + intros x Hx. eapply Permutation_in in Hx; [|eapply names_add_kid; exact Hp].
+      rewrite names_unfold in Hx. cbn in Hx. destruct Hx as [<-|Hx]; [exact Hnm|now apply Hc].
+  - (* exactly one node of that name, and the full-path comparison succeeded *)
+    destruct (str_eqb (path_name [c] t q) ([c] ++ join [c] (names_along t parent ++ [nm]))) eqn:E;
+      [|rewrite <- Hd; rewrite E; discriminate].
+    rewrite <- Hd. rewrite E. intros H. inversion H; subst t' p. clear H.
+    assert (Hq : In q (find_all nm t)) by (rewrite F; now left).
+    destruct (find_all_sound nm t q Hq) as (s & Hs & Hsn).
+    apply str_eqb_eq in E. unfold path_name in E. apply app_inv_head in E.
+    apply join_inj in E.
+    + destruct (names_along_extends parent t pt q s nm Hw Hp Hs E) as (i & k & -> & Hk & Hkn).
+      pose proof (find_idx_complete nm 0 _ i k Hk Hkn) as Hin. cbn [Nat.add] in Hin.
+      pose proof (find_idx_nodup nm 0 _ (proj1 (sib_ok_kids pt
+                    (sib_ok_subtree _ _ _ Hw Hp)))) as Hlen.
+      destruct (find_idx nm 0 (tkids pt)) as [|i0 [|i1 l]]; [contradiction| |cbn in Hlen; lia].
+      destruct Hin as [->|[]]. split; [reflexivity|]. split; [eauto|]. split; [exact E|exact Hc].
+    + destruct (names_along_hd t q) as [l ->]. discriminate.
+    + destruct (names_along t parent); discriminate.
+    + intros x Hx. apply Hc. apply (names_along_in q t s x Hs Hx).
+    + intros x Hx. apply in_app_or in Hx as [Hx|[<-|[]]]; [|exact Hnm].
+      apply Hc. apply (names_along_in parent t pt x Hp Hx).
+Qed.
+
+Lemma grow_false_true c na : forall rest t parent pt done t' p,
+  NoDup (names t) -> clean c t -> Forall (fun x => ~ In c x) rest ->
+  subtree_at t parent = Some pt -> names_along t parent = done ->
+  grow [c] false t parent done rest na = (t', Ret p) ->
+  grow [c] true t parent done rest na = (t', Ret p).
+Proof.
+  induction rest as [|nm rest IH]; intros t parent pt done t' p Hn Hc Hr Hp Hd H; cbn [grow] in *.
+  - exact H.
+  - inversion Hr as [|? ? Hnm Hrest]; subst.
+    match type of H with context [grow_step ?a1 ?a2 ?a3 ?a4 ?a5 ?a6 ?a7 ?a8] =>
+      destruct (grow_step a1 a2 a3 a4 a5 a6 a7 a8) as [[t1 p1]|e] eqn:Hs; [|discriminate H] end.
+    destruct (grow_step_false_true c t parent pt _ nm _ na t1 p1 Hn Hc Hnm Hp eq_refl Hs)
+      as (Ht & (pt1 & Hp1) & Hn1 & Hc1).
+    match goal with |- context [grow_step ?a1 true ?a3 ?a4 ?a5 ?a6 ?a7 ?a8] =>
+      replace (grow_step a1 true a3 a4 a5 a6 a7 a8) with (Ret (t1, p1)) by (symmetry; exact Ht) end.
+    apply (IH t1 p1 pt1 _ t' p); auto.
+    eapply grow_step_false_names; eauto.
+Qed.
+
+(* C05_no_dup_names, second half.  Guard: the separator of the tree is one character that occurs
+   in no node name and in no component of the path (so that the full-path comparison of the code,
+   a comparison of joined strings, identifies nodes). *)
+Theorem add_path_false_true c t path sep na t' p :
+  NoDup (names t) -> clean c t -> (forall x, In x (branch_of path sep) -> ~ In c x) ->
+  add_path_to_tree t [c] path sep false na = (t', Ret p) ->
+  add_path_to_tree t [c] path sep true na = (t', Ret p).
+Proof.
+  intros Hn Hc Hb. unfold add_path_to_tree. destruct (is_nil path); [discriminate|].
+  destruct (branch_of path sep) as [|b0 rest]; [discriminate|].
+  destruct (str_eqb b0 (tname t)) eqn:E; cbn [negb]; [|discriminate].
+  apply str_eqb_eq in E. subst b0.
+  destruct (grow [c] false t [] [tname t] rest na) as [t1 [p1|e]] eqn:Hg; [|discriminate].
+  intros H. inversion H; subst. clear H.
+  rewrite (grow_false_true c na rest t [] t [tname t] t1 p Hn Hc); auto.
+  apply Forall_forall. intros x Hx. apply Hb. now right.
+Qed.
+
+(* ======================================================================================== *)
+(* 17. the constructors that start from a fresh root (possibly with attributes)               *)
+
+Lemma SInv_root_attrs r a : SInv [[r]] (T None r a []).
+Proof.
+  split; [constructor; constructor|]. split; [|split].
+  - cbn. auto.
+  - intros l [E|[]]. cbn in *. now left.
+  - intros q H. exact H.
+Qed.
+
+Lemma build_closure r a tsep sep rows t' ps :
+  add_rows (T None r a []) tsep sep true rows [] = (t', Ret ps) ->
+  tname t' = r
+  /\ (forall q, In q (paths t') <-> q = [r] \/ In q (closure (branches sep rows)))
+  /\ paths t' = trie_pre (max_len (dedup [] ([r] :: closure (branches sep rows))))
+                         (dedup [] ([r] :: closure (branches sep rows))) [r].
+Proof.
+  intros Ha.
+  destruct (add_rows_SInv _ _ _ _ _ _ _ _ (SInv_root_attrs r a) Ha) as [_ Hn]. cbn [tname] in Hn.
+  split; [exact Hn|]. split.
+  - intros q. rewrite (add_rows_paths _ _ _ _ _ _ _ Ha q). cbn. intuition congruence.
+  - exact (add_rows_trie_order _ _ _ _ _ _ _ _ (SInv_root_attrs r a) Ha).
+Qed.
+
+Theorem dict_to_tree_closure d sep t' :
+  dict_to_tree d sep true = Ret t' ->
+  let bs := map (fun r => branch_of (fst r) sep) d in
+  let all := dedup [] ([tname t'] :: closure bs) in
+  (forall q, In q (paths t') <-> q = [tname t'] \/ In q (closure bs))
+  /\ paths t' = trie_pre (max_len all) all [tname t'].
+Proof.
+  unfold dict_to_tree. destruct d as [|[k0 a0] d0]; [discriminate|].
+  set (d := (k0, a0) :: d0). set (r := hd [] (branch_of k0 sep)).
+  match goal with |- context [set_attrs [] ?x] => set (ra := x) end.
+  destruct (is_nil r); [discriminate|].
+  match goal with |- context [add_rows ?a1 ?a2 ?a3 ?a4 ?a5 ?a6] =>
+    destruct (add_rows a1 a2 a3 a4 a5 a6) as [t1 [ps1|e]] eqn:Ha; [|discriminate] end.
+  intros E. inversion E; subst t1. clear E.
+  destruct (build_closure _ _ _ _ _ _ _ Ha) as (Hn & Hp & Ht).
+  unfold branches in Hp, Ht. rewrite map_map in Hp, Ht. cbn [fst] in Hp, Ht.
+  rewrite Hn. split; [exact Hp|exact Ht].
+Qed.
+
+Theorem frame_to_tree_closure rows pcol sep t' :
+  frame_to_tree rows pcol sep true = Ret t' ->
+  let bs := map (fun r => branch_of (fst r) sep) (strip_rows rows sep) in
+  let all := dedup [] ([tname t'] :: closure bs) in
+  (forall q, In q (paths t') <-> q = [tname t'] \/ In q (closure bs))
+  /\ paths t' = trie_pre (max_len all) all [tname t'].
+Proof.
+  unfold frame_to_tree. destruct (strip_rows rows sep) as [|[p0 a0] rows0]; [discriminate|].
+  cbv zeta.
+  match goal with |- context [has_duplicate_attribute ?x] =>
+    set (rows1 := x); destruct (has_duplicate_attribute rows1); [discriminate|] end.
+  set (r := hd [] (split p0 sep)).
+  match goal with |- context [set_attrs [] ?x] => set (kw := x) end.
+  destruct (is_nil r); [discriminate|].
+  match goal with |- context [add_rows ?a1 ?a2 ?a3 ?a4 ?a5 ?a6] =>
+    destruct (add_rows a1 a2 a3 a4 a5 a6) as [t1 [ps1|e]] eqn:Ha; [|discriminate] end.
+  intros E. inversion E; subst t1. clear E.
+  destruct (build_closure _ _ _ _ _ _ _ Ha) as (Hn & Hp & Ht).
+  unfold branches in Hp, Ht. rewrite map_map in Hp, Ht. cbn [fst] in Hp, Ht.
+  rewrite Hn. split; [exact Hp|exact Ht].
+Qed.
+
+(* ======================================================================================== *)
+(* 18. the separator chosen does not matter (single-character separators)                     *)
+
+Lemma startswith_single c ch s : startswith (ch :: s) [c] = N.eqb c ch.
+Proof. cbn. now rewrite andb_true_r. Qed.
+
+Lemma split_go_word c : forall x cur rest fuel,
+  ~ In c x -> length x <= fuel ->
+  split_go fuel [c] cur (x ++ rest) = split_go (fuel - length x) [c] (rev x ++ cur) rest.
+Proof.
+  induction x as [|ch x IH]; intros cur rest fuel Hc Hf.
+  - cbn. now rewrite Nat.sub_0_r.
+  - destruct fuel as [|fuel]; [cbn in Hf; lia|].
+    cbn [app split_go]. rewrite startswith_single.
+    destruct (N.eqb c ch) eqn:E; [apply N.eqb_eq in E; subst; exfalso; apply Hc; now left|].
+    rewrite IH; [|intros H; apply Hc; now right|cbn in Hf; lia].
+    cbn [length rev Nat.sub]. now rewrite <- app_assoc.
+Qed.
+
+Lemma split_go_join c : forall names cur fuel,
+  names <> [] -> (forall x, In x names -> ~ In c x) -> length (join [c] names) < fuel ->
+  split_go fuel [c] cur (join [c] names) = (rev cur ++ hd [] names) :: tl names.
+Proof.
+  induction names as [|x names IH]; intros cur fuel Hne Hc Hf; [congruence|].
+  destruct names as [|y names].
+  - rewrite join_single in *. rewrite <- (app_nil_r x) at 1.
+    rewrite split_go_word; [|apply Hc; now left|lia].
+    destruct (fuel - length x) eqn:Ef; [lia|]. cbn. now rewrite rev_app_distr, rev_involutive.
+  - rewrite join_cons in *. cbn [app] in *. rewrite app_length in Hf. cbn [length] in Hf.
+    rewrite split_go_word; [|apply Hc; now left|lia].
+    destruct (fuel - length x) as [|f] eqn:Ef; [lia|].
+    cbn [split_go]. rewrite startswith_single, N.eqb_refl. cbn [skipn length].
+    rewrite IH; [|discriminate|intros z Hz; apply Hc; now right|lia].
+    cbn [rev app hd tl]. now rewrite rev_app_distr, rev_involutive.
+Qed.
+
+Lemma split_join c names :
+  names <> [] -> (forall x, In x names -> ~ In c x) -> split (join [c] names) [c] = names.
+Proof.
+  intros Hne Hc. unfold split. rewrite split_go_join; auto.
+  destruct names; [congruence|reflexivity].
+Qed.
+
+Lemma lstrip_id c s : (forall x r, s = x :: r -> x <> c) -> lstrip s [c] = s.
+Proof.
+  intros H. destruct s as [|x r]; [reflexivity|]. cbn.
+  destruct (N.eqb x c) eqn:E; [apply N.eqb_eq in E; exfalso; now apply (H x r eq_refl)|reflexivity].
+Qed.
+
+Lemma rstrip_id c s : (forall x r, rev s = x :: r -> x <> c) -> rstrip s [c] = s.
+Proof. intros H. unfold rstrip. rewrite lstrip_id; [apply rev_involutive|exact H]. Qed.
+
+Lemma join_head c x names ch r :
+  x = ch :: r -> exists r', join [c] (x :: names) = ch :: r'.
+Proof. intros ->. destruct names; [rewrite join_single|rewrite join_cons]; cbn; eauto. Qed.
+
+Lemma join_last c : forall names y ch r,
+  rev y = ch :: r -> exists r', rev (join [c] (names ++ [y])) = ch :: r'.
+Proof.
+  induction names as [|x names IH]; intros y ch r Hy.
+  - cbn [app]. rewrite join_single. eauto.
+  - cbn [app]. destruct (names ++ [y]) as [|z l] eqn:E; [destruct names; discriminate|].
+    rewrite join_cons, <- E. rewrite !rev_app_distr.
+    destruct (IH y ch r Hy) as [r' ->]. cbn. eauto.
+Qed.
+
+(* a path string is read back as its list of names *)
+Lemma branch_of_join c names :
+  names <> [] -> (forall x, In x names -> ~ In c x) -> hd [] names <> [] -> last names [] <> [] ->
+  branch_of (join [c] names) [c] = names.
+Proof.
+  intros Hne Hc Hh Hl. unfold branch_of.
+  rewrite lstrip_id.
+  - rewrite rstrip_id; [now apply split_join|].
+    intros x r E. destruct (exists_last Hne) as (l & y & ->).
+    rewrite last_last in Hl. destruct (rev y) as [|ch r0] eqn:Ey.
+    + apply (f_equal (@rev N)) in Ey. rewrite rev_involutive in Ey. cbn in Ey. congruence.
+    + destruct (join_last c l y ch r0 Ey) as [r' E']. rewrite E' in E. inversion E; subst.
+      intros ->. apply (Hc y); [apply in_or_app; right; now left|].
+      apply in_rev. rewrite Ey. now left.
+  - intros x r E. destruct names as [|n0 names]; [congruence|]. cbn [hd] in Hh.
+    destruct n0 as [|ch r0]; [congruence|].
+    destruct (join_head c (ch :: r0) names ch r0 eq_refl) as [r' E']. rewrite E' in E.
+    inversion E; subst. intros ->. apply (Hc (c :: r0)); now left.
+Qed.
+
+(* C05_sep_independent *)
+Theorem add_path_sep_independent c1 c2 names t tsep dup na :
+  names <> [] -> hd [] names <> [] -> last names [] <> [] ->
+  (forall x, In x names -> ~ In c1 x /\ ~ In c2 x) ->
+  add_path_to_tree t tsep (join [c1] names) [c1] dup na
+  = add_path_to_tree t tsep (join [c2] names) [c2] dup na.
+Proof.
+  intros Hne Hh Hl Hc. unfold add_path_to_tree.
+  rewrite !branch_of_join; auto; try (intros x Hx; now apply Hc).
+  destruct names as [|n0 names]; [congruence|]. cbn [hd] in Hh. destruct n0 as [|ch r0]; [congruence|].
+  destruct (join_head c1 (ch :: r0) names ch r0 eq_refl) as [r1 ->].
+  destruct (join_head c2 (ch :: r0) names ch r0 eq_refl) as [r2 ->]. reflexivity.
+Qed.
